@@ -11,27 +11,6 @@ import (
 	"verif/core"
 	"verif/gjs"
 	"verif/reg"
-
-	_ "verif/props/c01"
-	_ "verif/props/c02"
-	_ "verif/props/c03"
-	_ "verif/props/c04"
-	_ "verif/props/c05"
-	_ "verif/props/c06"
-	_ "verif/props/c07"
-	_ "verif/props/c08"
-	_ "verif/props/c09"
-	_ "verif/props/c10"
-	_ "verif/props/c11"
-	_ "verif/props/c12"
-	_ "verif/props/c13"
-	_ "verif/props/c14"
-	_ "verif/props/c15"
-	_ "verif/props/c16"
-	_ "verif/props/c17"
-	_ "verif/props/c18"
-	_ "verif/props/c19"
-	_ "verif/props/c20"
 )
 
 func main() {
